@@ -7,6 +7,7 @@
      -> (eq <before> <after-ext>) (erase <before> <after-ext>) (wf <bool>) (canon n..) (canon2 n..)
    (refs (workers w..) (sched i..))  -> (refs n..) | (panic)
    (equal (consts ..) (heap ..) (tuples ..) <count> V..)  -> (ok V-erased) | (err Class) | (panic)
+   (equal-not ...)  the same followed by Not
 *)
 open Equal_model
 
@@ -137,7 +138,7 @@ let run_case (s : Sexp.t) : string =
      | Val rs -> "(refs" ^ String.concat "" (List.map (fun r -> " " ^ string_of_z r) rs) ^ ")"
      | Err e -> "(err " ^ err_name e ^ ")"
      | Panic _ -> "(panic)")
-  | Sexp.List (Sexp.Atom "equal" :: rest) ->
+  | Sexp.List (Sexp.Atom ("equal" | "equal-not" as head) :: rest) ->
     let p = tables_of rest in
     let rec tail = function
       | (Sexp.List (Sexp.Atom ("consts" | "heap" | "tuples") :: _)) :: t -> tail t
@@ -148,7 +149,9 @@ let run_case (s : Sexp.t) : string =
           runs the instructions as the entry function of a process, whose stack starts with the nil
           argument (spawn_process pushes it). *)
        let stack = List.rev (List.map value_of vs) @ [nil_value] in
-       (match handle_equal p (nat_of_int (int_of_string (Sexp.atom count))) stack with
+       let r = handle_equal p (nat_of_int (int_of_string (Sexp.atom count))) stack in
+       let r = if head = "equal-not" then obind r handle_not else r in
+       (match r with
         | Val (top :: _) -> "(ok " ^ dump_evalue (erase p top) ^ ")"
         | Val [] -> "(ok-empty)"
         | Err e -> "(err " ^ err_name e ^ ")"
